@@ -275,6 +275,9 @@ func checkC04(c *Ctx) {
 	r.Rule("R04.9", "member grammar: in the member-list emitter every mode-feasible path from a member separator to the next element (or out of the function) writes a key, and every path from a key writes a value (the value switch, the timestamp printer or a value stringer), so no element is dropped after its separator")
 	r.Rule("R05.10", "(shared with C05) the message is handed on as given from the verbs to the encoder's message field")
 	r.Rule("R04.10", "array grammar: in every list writer that separates elements by ',' each function of the package called in the loop that can write to the record writes on every mode-feasible path, so no element is empty")
+	r.Rule("R04.11", "built-in kinds first: in the value switch every site that reaches an invoke of MarshalJSON / MarshalText is dominated by the miss edge of the time.Time arm (user marshallers are consulted only for values no built-in arm matched)")
+	r.Rule("R02.6", "(shared with C02) the pooled formatting context is returned to the pool by the normal path only, after the Write, and not used afterwards: a context put back by a deferred call after a panic inside a value's own method carries the half-built state (group prefix, colours) into the records that follow")
+	r.Rule("R05.11", "(shared with C05) pair grammar of the fixed members in JSON mode: pairs and separators alternate on every feasible path, braces included")
 	r.Rule("R04.5", "framing: the only constant containing a line break that JSON mode can emit is the one End(true) writes")
 	r.Rule("R04.8", "value fidelity (necessary for 'decodes to what was logged'): in JSON mode every floating-point value is rendered by strconv with precision -1 and the bit size of its own static type, every integer in base 10, and every time VALUE with a constant layout that has nanosecond digits and a zone; the parameters are resolved to constants over all call chains")
 	r.Rule("R08.1", "(shared with C08) what a record says was logged by this call: nothing on the print path writes memory that outlives the call other than the pooled objects of this call")
@@ -301,10 +304,13 @@ func checkC04(c *Ctx) {
 		escaperNoLoss(c, p, "R04.8")
 		messageIdentity(c, p, "R05.10")
 		messageEmittedAsIs(c, p, m, mr, "R05.10")
+		c02Pool(c, p, m)
 		c08Stores(c, p, m)
 		c04Brackets(c, p, m, mr)
 		c04Members(c, p, m, mr)
 		c04Elements(c, p, m, mr)
+		c04BuiltinFirst(c, p, m)
+		fixedMemberGrammar(c, p, m, jsonMode, "R05.11")
 		newlineRule(c, p, mr, "R04.5", map[string]string{"PrintCtx.End": "the record terminator of End(true)", "PrintCtx.EndArray": "EndArray(newline) for user marshallers", "Entry.printImpl": "blank-line shortcut"})
 		// the same with the testing/debug-only branches included: in JSON mode the post-record error dump is skipped, so
 		// "one line" holds under go test and a debugger too
@@ -1000,8 +1006,9 @@ func finiteOnly(b *ssa.BasicBlock, mode Mode) bool {
 // after every separator (and after '['): every function of the package it calls in the loop that CAN write to the
 // record must write on EVERY mode-feasible path (an element writer that returns silently for nil leaves ",," or
 // "[," behind).
-func c04Elements(c *Ctx, p *Prog, m *Model, mr *ModeReach) {
-	r := c.R
+// emitAnalysis: may/must-emission over the functions of the package for one mode (see R04.10).
+func emitAnalysis(p *Prog, mode Mode) (func(fn *ssa.Function) bool, func(fn *ssa.Function) bool) {
+	mr := &struct{ Mode Mode }{mode}
 	// a store to the encoder's buffer field, or a call of the io.Writer-style methods of the encoder
 	isBuf := func(v ssa.Value) bool {
 		for _, sv := range sources(v) {
@@ -1121,6 +1128,12 @@ func c04Elements(c *Ctx, p *Prog, m *Model, mr *ModeReach) {
 		}
 		return !silent
 	}
+	return mayEmit, alwaysEmits
+}
+
+func c04Elements(c *Ctx, p *Prog, m *Model, mr *ModeReach) {
+	r := c.R
+	mayEmit, alwaysEmits := emitAnalysis(p, mr.Mode)
 	n := 0
 	for _, ce := range mr.constEmissions() {
 		if ce.Text != "," || !inLoop(ce.Instr.Block()) || nm(ce.Fn) == "serializeAttrs" || nm(ce.Fn) == "pcAppendComma" {
@@ -1147,4 +1160,86 @@ func c04Elements(c *Ctx, p *Prog, m *Model, mr *ModeReach) {
 	if n == 0 {
 		r.Unk("R04.10", fmt.Sprintf("elements[%s]", mr.Mode), "-", "no list writer with a ',' separator found in %s mode", mr.Mode)
 	}
+}
+
+// c04BuiltinFirst: R04.11 — values of the built-in kinds are rendered by the encoder's own arms. A user marshaller
+// interface (MarshalJSON / MarshalText) is consulted only for values that matched none of them: time.Time
+// implements both, and its MarshalJSON fails for years outside 0..9999, so asking it first prints nothing after
+// the key for such a time. Every site in the value switch that reaches an invoke of MarshalJSON / MarshalText is
+// dominated by the miss edge of the time.Time arm.
+func c04BuiltinFirst(c *Ctx, p *Prog, m *Model) {
+	r := c.R
+	av := p.Method(p.Slog, "PrintCtx", "appendValue")
+	if av == nil {
+		r.Unk("R04.11", "builtin-first", "-", "appendValue not found")
+		return
+	}
+	var timeOK []*ssa.Extract // the ok of val.(time.Time)
+	for _, b := range av.Blocks {
+		for _, in := range b.Instrs {
+			if ta, ok := in.(*ssa.TypeAssert); ok && ta.CommaOk && ta.AssertedType.String() == "time.Time" {
+				for _, ref := range *ta.Referrers() {
+					if ex, ok := ref.(*ssa.Extract); ok && ex.Index == 1 {
+						timeOK = append(timeOK, ex)
+					}
+				}
+			}
+		}
+	}
+	if len(timeOK) == 0 {
+		r.Unk("R04.11", "builtin-first", p.FuncPos(av), "no arm for time.Time found in the value switch")
+		return
+	}
+	ph := privateHelper(p)
+	memo := map[*ssa.Function]bool{}
+	var asks func(fn *ssa.Function, depth int) bool
+	asks = func(fn *ssa.Function, depth int) bool {
+		if fn == nil || depth > 3 || len(fn.Blocks) == 0 {
+			return false
+		}
+		if v, ok := memo[fn]; ok {
+			return v
+		}
+		memo[fn] = false
+		for _, cs := range callsIn(fn) {
+			if n := invokeName(cs); n == "MarshalJSON" || n == "MarshalText" {
+				memo[fn] = true
+				return true
+			}
+			if cal := calleeOf(cs); cal != nil && cal != av && ph(cal) && asks(cal, depth+1) {
+				memo[fn] = true
+				return true
+			}
+		}
+		return false
+	}
+	afterMiss := func(b *ssa.BasicBlock) bool {
+		for _, g := range guardsOf(b) {
+			cond, neg := normCond(g.If.Cond)
+			for _, ex := range timeOK {
+				if cond == ssa.Value(ex) && (g.Succ == 0) == neg {
+					return true
+				}
+			}
+		}
+		return false
+	}
+	var probs []string
+	n := 0
+	for _, cs := range callsIn(av) {
+		hit := false
+		if nme := invokeName(cs); nme == "MarshalJSON" || nme == "MarshalText" {
+			hit = true
+		} else if cal := calleeOf(cs); cal != nil && cal != av && ph(cal) && asks(cal, 0) {
+			hit = true
+		}
+		if !hit {
+			continue
+		}
+		n++
+		if !afterMiss(cs.Block()) {
+			probs = append(probs, fmt.Sprintf("a marshaller interface is consulted at %s before the value was found not to be a time.Time", p.Pos(instrPos(cs))))
+		}
+	}
+	r.Check(len(probs) == 0, "R04.11", "builtin-first", p.FuncPos(av), fmt.Sprintf("user marshallers are consulted only after the built-in arms missed (%d site(s))", n), strings.Join(probs, "; ")+": time.Time implements json.Marshaler and its MarshalJSON fails outside years 0..9999, so such a time is written as nothing after its key")
 }
